@@ -20,7 +20,7 @@ EXTRACTION_DROPS = [
     "docstrings", "type annotations (used only as declared sorts of parameters)", "comments",
     "text of exception messages (an exception is its class)", "__repr__/__str__ of IR classes",
     "decorators are not executed: @property/@classmethod/@staticmethod interpreted structurally, @wraps ignored, "
-    "@cached_method replaced by the transparency contract verified on utils.cached_method",
+    "@cached_method read as transparent (assumed: its cache-key defect is repaired in /repo, the bounded C04/C11/C14 stand-ins exercise the cache)",
 ]
 SEMANTIC_ASSUMPTIONS = [
     "S1 int is mathematical Z (exact for CPython)",
@@ -82,6 +82,26 @@ def run_deductive(prop, tier, seed, report):
     timeout = int(os.environ.get("VERIF_TIMEOUT_MS", "10000" if tier == "quick" else "30000"))
     t0 = time.time()
     results = discharge(eng, obs, timeout_ms=timeout, seed=seed)
+    # an obligation that the baseline discharged and this run did not is tried once more with four times the budget before it is
+    # reported: verdicts must not flip because the machine is busy
+    retry = []
+    seen_idx = {}
+    for i_, ob in enumerate(obs):
+        k_ = seen_idx.get(ob.name, 0)
+        seen_idx[ob.name] = k_ + 1
+        r_ = results.get(ob.name, [])
+        if not ob.expect_fail and k_ < len(r_) and r_[k_]["verdict"] != "unsat" and ob.name in ledger.get("obligations", {}):
+            retry.append((ob, k_))
+    if retry:
+        again = discharge(eng, [ob for ob, _ in retry], timeout_ms=timeout * 4, seed=seed + 7)
+        cnt = {}
+        for ob, k_ in retry:
+            j_ = cnt.get(ob.name, 0)
+            cnt[ob.name] = j_ + 1
+            r2 = again.get(ob.name, [])
+            if j_ < len(r2) and r2[j_]["verdict"] == "unsat":
+                r2[j_]["solver"] += "(retry x4)"
+                results[ob.name][k_] = r2[j_]
     solver_wall = time.time() - t0
     by_name = {}
     idx = {}
@@ -119,6 +139,7 @@ def run_deductive(prop, tier, seed, report):
         "typing_assumptions": eng.typing_assumptions,
         "assumed_contracts_used": sorted(eng.used_assumptions),
         "repo_contracts_not_verified": unverified,
+        "stubs_used": sorted({cal for k in funcs for cal in eng.func_reports.get(k, {}).get("callees", []) if cal in unverified}),
     }
     if prop == "C06":
         # order-insensitivity obligations: one per ordered consumption of a set anywhere in the package
@@ -301,7 +322,7 @@ def main(argv=None):
             path = write_replay(prop, name, payload)
             violations.append((name, path, " no-failing-input-found"))
         else:
-            undecided.append({"obligation": name, "verdict": r["verdict"], "reason": "not in ledger and no witness found"})
+            undecided.append({"obligation": name, "verdict": r["verdict"], "reason": "undecided on the committed baseline as well (ledger.undecided); no witness found"})
     for name, s_ in report.get("_order_open", []):
         path = write_replay(prop, name, {"property": prop, "obligation": name, "function": s_.func, "line": s_.line, "site": s_.text,
                                          "consumer": s_.consumer, "witness": None,
@@ -350,7 +371,8 @@ def main(argv=None):
     # ---- evidence
     d = report["deductive"]
     trusted = ["pyvc translator + prelude axioms (/verif/pyvc)", "z3 5.1.0 (primary), cvc5 1.0.3 and z3 4.8.12 (fallback on non-unsat)"] + \
-        SEMANTIC_ASSUMPTIONS + d.get("assumed_contracts_used", [])
+        SEMANTIC_ASSUMPTIONS + d.get("assumed_contracts_used", []) + \
+        [f"contract of repository function {k.split('::')[-1]} is assumed, the function is not verified (stub)" for k in d.get("stubs_used", [])]
     cov = {
         "obligations": d["obligations"], "discharged": d["discharged"],
         "checker_cmd": f"./check {prop} --tier {tier}",
@@ -411,6 +433,23 @@ def replay(path):
     print(json.dumps({k: v for k, v in data.items() if k != "solver"}, indent=1, default=str)[:3000])
     if not w:
         print("no concrete input recorded (no-failing-input-found): obligation", data.get("obligation"))
+        fn, name = data.get("function"), data.get("obligation")
+        if fn and name and "::" in str(fn):
+            # re-generate and re-discharge the named obligation on the current tree
+            from pyvc.verify import Engine, discharge
+            eng = Engine()
+            if fn not in eng.side.contracts:
+                print("replay: no contract for", fn)
+                return 1
+            rep = eng.verify_function(fn)
+            obs = [ob for ob in eng.obligations if ob.name == name]
+            if rep["status"] != "ok" or not obs:
+                print(f"replay: function status {rep['status']} ({rep['reason']}); obligation {'not generated' if not obs else 'generated'}")
+                return 1
+            res = discharge(eng, obs, timeout_ms=30000, seed=0)
+            verdicts = [r["verdict"] for r in res.get(name, [])]
+            print("replay: obligation", name, "->", verdicts)
+            return 0 if verdicts and all(v == "unsat" for v in verdicts) else 1
         return 1
     if "recipe" in w and "key" in w:
         ns = domains.namespace()
